@@ -424,7 +424,7 @@ def rule_partition(ctx, rep, rid="C09.partition"):
     co = [c_ for c_ in f.calls() if c_.callee and c_.callee.endswith("get_count_order_ulong")]
     lnst = [s_ for s_ in pat.stores(f, "partition_resize_work.len")]
     if co and lnst:
-        nt = ir.expr(f, co[0].args[0], 10)
+        nt = ir.expr(f, co[0].args[0], 10, through_phi=True)
         offs = [z for z in ir.subexprs(nt) if z[0] == "bin" and z[1] in ("add", "sub") and z[2][0] == "load" and z[2][1] == "@nr_cpus_mask"]
         badoff = [z for z in offs if not ((z[1] == "add" and z[3] == ("c", 1)) or (z[1] == "sub" and z[3] == ("c", -1)))]
         shifts = [z for z in ir.subexprs(nt) if z[0] == "bin" and z[1] in ("shl", "lshr", "ashr") and z[2] == ("arg", 2)]
